@@ -99,5 +99,50 @@ def growthC12Sync (cap : Nat) (ttl tti : Option Nat) (wf : Nat → Nat → Nat) 
   | _ :: rest => growthC12Sync cap ttl tti wf batch rest
   | [] => true
 
+/-! ### C13 on the concurrent cache: an admission that meets a node whose entry has left the map -/
+
+/-- `before` without the resident `a` (its map entry, its access-order node, its estimate stay
+where they are in the cache until the queued `Remove` is applied; the property speaks about
+residents, and `a` is none any more). -/
+def withoutKey (sn : Snap) (a : Nat) : Snap :=
+  { sn with entries := sn.entries.filter (fun e => e.key != a),
+            prob := sn.prob.filter (fun n => n.key != a) }
+
+/-- The decision for a fresh key `k` inserted into a calm, quiescent, full cache whose resident
+`a` is invalidated BEFORE the maintenance run that decides on `k`: `a`'s node is still in the
+access-order queue when the victim scan runs, its weight is still accounted (so there is no room
+although `a` has gone), but `a` is no resident: the candidate is compared with the shortest prefix
+of the OTHER residents in LRU order whose weights reach its own, and `a`'s popularity does not
+count. Afterwards the cache holds the residents of `before` without `a`, without the victims and
+with `k` (admitted), or the residents of `before` without `a` (rejected). -/
+def danglingOk (cap : Nat) (ttl tti : Option Nat) (wf : Nat → Nat → Nat)
+    (before : Snap) (k v f a : Nat) (after : Snap) : Bool :=
+  let w := wf k v
+  let fresh := !(keysOf before).contains k
+  let quiet := before.rq == 0 && before.wq == 0 && after.rq == 0 && after.wq == 0
+  let applies := quiet && fresh && (keysOf before).contains a && calm cap ttl tti before &&
+    decide (w ≤ cap) && decide (before.ws + w > cap) &&
+    before.entries.all (entryLiveAt ttl tti after.now after.va)
+  !applies ||
+    (let rest := withoutKey before a
+     match predictAdmission rest w f with
+     | some victims =>
+       sameKeys (keysOf after) (k :: (keysOf rest).filter (fun x => !victims.contains x))
+     | none => sameKeys (keysOf after) (keysOf rest))
+
+/-- Windows `sync, snap(before), freq k, ins k v, [snap,] inv a, [snap,] sync, snap(after)`. -/
+def admitDanglingC13 (cap : Nat) (ttl tti : Option Nat) (wf : Nat → Nat → Nat) : Trace → Bool
+  | (.sync, .ok) :: (.snap, .snap before) :: (.freq k, .freq f) :: (.ins k' v, .ok) ::
+      (.inv a, .ok) :: (.sync, .ok) :: (.snap, .snap after) :: rest =>
+    (k != k' || danglingOk cap ttl tti wf before k v f a after) &&
+      admitDanglingC13 cap ttl tti wf ((.sync, .ok) :: (.snap, .snap after) :: rest)
+  | (.sync, .ok) :: (.snap, .snap before) :: (.freq k, .freq f) :: (.ins k' v, .ok) :: (.snap, .snap m1) ::
+      (.inv a, .ok) :: (.snap, .snap m2) :: (.sync, .ok) :: (.snap, .snap after) :: rest =>
+    (k != k' || danglingOk cap ttl tti wf before k v f a after) &&
+      admitDanglingC13 cap ttl tti wf
+        ((.snap, .snap m1) :: (.inv a, .ok) :: (.snap, .snap m2) :: (.sync, .ok) :: (.snap, .snap after) :: rest)
+  | _ :: rest => admitDanglingC13 cap ttl tti wf rest
+  | [] => true
+
 end Spec
 end MiniMoka
